@@ -1326,3 +1326,151 @@ fn first_diff(a: &Value, b: &Value) -> String {
     }
     "?".into()
 }
+
+// ---------------------------------------------------------------------------------------------
+// C13 / C14: every terminating cause in every session state (including causes that arrive in the
+// same batch as other requests)
+
+pub fn endings(a: &HashMap<String, String>) -> i32 {
+    let thorough = tier_of(a);
+    let mut sink = Sink::new(a);
+    let seed = seed_of(a);
+    let states = ["idle", "ops", "midq2", "queued"];
+    let mut causes: Vec<Value> = vec![];
+    for behind in 0..3usize {
+        for after in 0..2usize {
+            for rc in [json!(null), json!(0), json!(4), json!(0x80)] {
+                causes.push(json!({"c": "userdisc", "behind": behind, "after": after, "rc": rc}));
+            }
+        }
+    }
+    for rc in session::DISCONNECT_REASONS {
+        for props in [json!([]), json!([[0x1f, "going away"], [0x26, "k", "v"]]), json!([[0x1c, "other:1883"], [0x26, "a", "b"], [0x26, "a", "c"]])] {
+            if !thorough && props != json!([]) && rc % 3 != 0 {
+                continue;
+            }
+            for form in [2u8, 1, 0] {
+                // shortened forms: reason only (1), empty = reason 0 (0)
+                if (form == 0 && rc != 0) || (form != 2 && props != json!([])) {
+                    continue;
+                }
+                causes.push(json!({"c": "srvdisc", "rc": rc, "props": props, "form": form}));
+            }
+        }
+    }
+    causes.push(json!({"c": "eof"}));
+    causes.push(json!({"c": "rderr"}));
+    causes.push(json!({"c": "wrerr", "req": "ping"}));
+    causes.push(json!({"c": "wrerr", "req": "pub1"}));
+    causes.push(json!({"c": "wrerr", "req": "sub"}));
+    causes.push(json!({"c": "wrerr", "req": "inbound"}));
+    for queued in 0..3usize {
+        causes.push(json!({"c": "handles", "queued": queued}));
+    }
+    for st in states {
+        for cause in &causes {
+            let run = match sink.mine() {
+                Some(x) => x,
+                None => continue,
+            };
+            let mut steps = vec![reset("endings", Some(5), None)];
+            let mut next = 1usize;
+            let mut live_ops: Vec<usize> = vec![];
+            match st {
+                "ops" | "midq2" => {
+                    steps.push(json!({"a": "call", "op": 1, "h": 0, "spec": {"kind": "sub", "filters": [{"f": "f/1", "qos": 1}]}}));
+                    steps.push(json!({"a": "call", "op": 2, "h": 0, "spec": pub_spec(2, 1, 2)}));
+                    steps.push(json!({"a": "call", "op": 3, "h": 0, "spec": pub_spec(3, 2, 2)}));
+                    steps.push(json!({"a": "call", "op": 4, "h": 0, "spec": {"kind": "ping"}}));
+                    steps.push(settle_wake());
+                    steps.push(json!({"a": "pkt", "pk": {"t": "SUBACK", "id": {"op": 1}, "rcs": [1]}}));
+                    steps.push(settle_wake());
+                    steps.push(json!({"a": "pkt", "pk": {"t": "PUBLISH", "qos": 0, "id": 1, "topic": "in/1", "payload": "buffered", "sids": [{"sub": 1}]}}));
+                    steps.push(poll_ctx());
+                    if st == "midq2" {
+                        steps.push(json!({"a": "pkt", "pk": {"t": "PUBREC", "id": {"op": 3}, "rc": 0}}));
+                        steps.push(poll_ctx());
+                        steps.push(poll_op(3));
+                        steps.push(poll_ctx());
+                    }
+                    next = 5;
+                    live_ops = vec![2, 3, 4];
+                }
+                "queued" => {
+                    steps.push(json!({"a": "call", "op": 1, "h": 0, "spec": pub_spec(1, 1, 2)}));
+                    steps.push(json!({"a": "call", "op": 2, "h": 0, "spec": {"kind": "ping"}}));
+                    steps.push(poll_op(1));
+                    steps.push(poll_op(2));
+                    next = 3;
+                    live_ops = vec![1, 2];
+                }
+                _ => {}
+            }
+            match cause["c"].as_str().unwrap_or("") {
+                "userdisc" => {
+                    let behind = cause["behind"].as_u64().unwrap_or(0) as usize;
+                    let after = cause["after"].as_u64().unwrap_or(0) as usize;
+                    let mut firsts = vec![];
+                    for _ in 0..behind {
+                        steps.push(json!({"a": "call", "op": next, "h": 0, "spec": pub_spec(next, (next % 2) as u8, 1)}));
+                        firsts.push(next);
+                        next += 1;
+                    }
+                    let mut d = json!({"kind": "disc"});
+                    if !cause["rc"].is_null() {
+                        d["reason"] = cause["rc"].clone();
+                    }
+                    steps.push(json!({"a": "call", "op": next, "h": 0, "spec": d}));
+                    firsts.push(next);
+                    next += 1;
+                    for _ in 0..after {
+                        steps.push(json!({"a": "call", "op": next, "h": 0, "spec": pub_spec(next, 1, 1)}));
+                        firsts.push(next);
+                        next += 1;
+                    }
+                    // all first polls (enqueue in this order), then one poll of the context: one batch
+                    for k in firsts {
+                        steps.push(poll_op(k));
+                    }
+                    steps.push(poll_ctx());
+                }
+                "srvdisc" => {
+                    steps.push(json!({"a": "pkt", "pk": {"t": "DISCONNECT", "rc": cause["rc"], "props": cause["props"]}, "form": cause["form"]}));
+                }
+                "eof" => steps.push(json!({"a": "eof"})),
+                "rderr" => steps.push(json!({"a": "rderr"})),
+                "wrerr" => {
+                    steps.push(json!({"a": "wrmode", "m": "err", "k": 0}));
+                    match cause["req"].as_str().unwrap_or("") {
+                        "ping" => steps.push(json!({"a": "call", "op": next, "h": 0, "spec": {"kind": "ping"}})),
+                        "pub1" => steps.push(json!({"a": "call", "op": next, "h": 0, "spec": pub_spec(next, 1, 1)})),
+                        "sub" => steps.push(json!({"a": "call", "op": next, "h": 0, "spec": {"kind": "sub", "filters": [{"f": format!("f/{}", next), "qos": 0}]}})),
+                        _ => steps.push(json!({"a": "pkt", "pk": {"t": "PUBLISH", "qos": 1, "id": 44, "topic": "in/w", "payload": "x", "sids": []}})),
+                    }
+                    next += 1;
+                }
+                "handles" => {
+                    let queued = cause["queued"].as_u64().unwrap_or(0) as usize;
+                    for _ in 0..queued {
+                        steps.push(json!({"a": "call", "op": next, "h": 0, "spec": pub_spec(next, (next % 3) as u8, 1)}));
+                        steps.push(poll_op(next));
+                        live_ops.push(next);
+                        next += 1;
+                    }
+                    for k in &live_ops {
+                        steps.push(json!({"a": "drop", "t": "op", "k": k}));
+                    }
+                    steps.push(json!({"a": "drop", "t": "h", "k": 0}));
+                }
+                _ => {}
+            }
+            steps.push(settle());
+            steps.push(json!({"a": "drop", "t": "ctx", "k": 0}));
+            steps.push(json!({"a": "call", "op": next + 1, "h": 0, "spec": pub_spec(next + 1, 1, 1)}));
+            steps.push(settle());
+            sink.run_script(run, steps, seed);
+        }
+    }
+    sink.finish();
+    0
+}
